@@ -410,7 +410,7 @@ def run(ck):
         eng = Engine(ck, shfmt, edges, work)
         ntrees = 26 if ck.tier == "quick" else 160
         vecs, ninit = pick_vectors(ck, edges, ntrees)
-        budget = 80 if ck.tier == "quick" else 800
+        budget = int(os.environ.get("C36_BUDGET", "0")) or (80 if ck.tier == "quick" else 800)
         t0 = time.time()
         jobs = []
         # per-file option sets: an .editorconfig whose sections match single files of a multi-file run.
